@@ -22,25 +22,50 @@ def log(*a):
 
 
 def workdir(name):
-    d = os.path.join(WORK, name)
+    d = os.path.join(WORK, name + ("_alt" if os.environ.get("VERIF_REPO", "/repo") != "/repo" else ""))
     shutil.rmtree(d, ignore_errors=True)
     os.makedirs(d, exist_ok=True)
     return d
 
 
+REPO = os.environ.get("VERIF_REPO", "/repo")
+
+
 def build_harness():
-    """(Re)build the harness - and with it vrl from /repo's current working tree, hooks on."""
+    """(Re)build the harness - and with it vrl from /repo's current working tree, hooks on.
+    VERIF_REPO=<other checkout> (used only to try seeded changes without touching /repo while other checks run) builds a
+    copy of the harness against that checkout under work/alt_harness and writes evidence under work/alt_evidence."""
+    global VH, EVID
     t0 = time.time()
     env = dict(os.environ, CARGO_NET_OFFLINE="true")
+    hdir = HARNESS
+    if REPO != "/repo":
+        hdir = os.path.join(WORK, "alt_harness")
+        os.makedirs(hdir, exist_ok=True)
+        shutil.rmtree(os.path.join(hdir, "src"), ignore_errors=True)
+        shutil.copytree(os.path.join(HARNESS, "src"), os.path.join(hdir, "src"))
+        shutil.copytree(os.path.join(HARNESS, ".cargo"), os.path.join(hdir, ".cargo"), dirs_exist_ok=True)
+        with open(os.path.join(HARNESS, "Cargo.toml")) as f:
+            toml = f.read().replace('path = "/repo"', f'path = "{REPO}"')
+        with open(os.path.join(hdir, "Cargo.toml"), "w") as f:
+            f.write(toml)
+        VH = os.path.join(hdir, "target", "release", "vh")
+        EVID = os.path.join(WORK, "alt_evidence")
+        os.makedirs(EVID, exist_ok=True)
+        for m in list(sys.modules.values()):      # modules that did `from common import *` hold their own copies
+            if getattr(m, "VH", None) is not None and m is not sys.modules[__name__]:
+                m.VH = VH
+            if getattr(m, "EVID", None) is not None and m is not sys.modules[__name__]:
+                m.EVID = EVID
     try:
-        shutil.copyfile("/repo/Cargo.lock", os.path.join(HARNESS, "Cargo.lock"))
+        shutil.copyfile(os.path.join(REPO, "Cargo.lock"), os.path.join(hdir, "Cargo.lock"))
     except OSError as e:
         raise ToolError(f"cannot copy Cargo.lock: {e}")
-    p = subprocess.run(["cargo", "build", "--release", "--offline"], cwd=HARNESS, env=env,
+    p = subprocess.run(["cargo", "build", "--release", "--offline"], cwd=hdir, env=env,
                        stdout=subprocess.PIPE, stderr=subprocess.STDOUT, text=True)
     if p.returncode != 0:
         raise ToolError("harness build failed:\n" + p.stdout[-4000:])
-    log(f"[build] harness ok in {time.time()-t0:.1f}s")
+    log(f"[build] harness ok in {time.time()-t0:.1f}s" + ("" if REPO == "/repo" else f" (against {REPO})"))
     return VH
 
 
